@@ -13,7 +13,8 @@ CONSTANTS Names,        \* candidate module names
 VARIABLES mods,         \* configured modules
           att,          \* [mods -> SUBSET (Names \cup {Missing})] attachments (user -> targets)
           wrong,        \* set of <<user, target>> edges whose target has the wrong base class
-          fail,         \* [mods -> "none" | "early" | "init"] scripted failure of earlyInit / initModule
+          fail,         \* [mods -> FailKinds] scripted failure: earlyInit / initModule raises, the constructor raises (any
+                        \* exception / a configuration error: the module never exists), a hook forgets its super call
           polls, writes,\* subsets of mods: has a poll thread of its own / has configured values to write
           phase,        \* [mods -> "absent","created","early","inited","started"]
           written, polled, cbdone,     \* subsets of mods
@@ -22,6 +23,7 @@ VARIABLES mods,         \* configured modules
 cfgvars == <<mods, att, wrong, fail, polls, writes>>
 vars == <<mods, att, wrong, fail, polls, writes, phase, written, polled, cbdone, state, stopped, joined, shut>>
 
+FailKinds == {"none", "early", "init", "create", "createcfg", "nosuper_early", "nosuper_init"}
 Rank(p) == CASE p = "absent" -> 0 [] p = "created" -> 1 [] p = "early" -> 2 [] p = "inited" -> 3 [] p = "started" -> 4
 
 (* --- what makes a configuration healthy --- *)
@@ -35,7 +37,7 @@ Healthy == ~Cyclic /\ ~Dangling /\ wrong = {} /\ \A m \in mods : fail[m] = "none
 Init == /\ mods \in (SUBSET Names) \ {{}}
         /\ att \in [mods -> SUBSET (Names \cup {Missing})]
         /\ wrong \in SUBSET {e \in mods \X mods : e[2] \in att[e[1]]}
-        /\ fail \in [mods -> {"none", "early", "init"}]
+        /\ fail \in [mods -> FailKinds]
         /\ polls \in SUBSET mods /\ writes \in SUBSET mods      \* an unpolled module with configured values still gets a thread for writing them
         /\ phase = [m \in mods |-> "absent"]
         /\ written = {} /\ polled = {} /\ cbdone = {} /\ state = "starting"
@@ -43,7 +45,7 @@ Init == /\ mods \in (SUBSET Names) \ {{}}
 
 Step(m, from, to) == /\ state = "starting" /\ phase[m] = from /\ phase' = [phase EXCEPT ![m] = to]
 
-Create(m) == Step(m, "absent", "created") /\ UNCHANGED <<cfgvars, written, polled, cbdone, state, stopped, joined, shut>>
+Create(m) == fail[m] \notin {"create", "createcfg"} /\ Step(m, "absent", "created") /\ UNCHANGED <<cfgvars, written, polled, cbdone, state, stopped, joined, shut>>
 EarlyInit(m) == Step(m, "created", "early") /\ UNCHANGED <<cfgvars, written, polled, cbdone, state, stopped, joined, shut>>
 (* initModule returns only when it is done; a user may see an attachment only once that one is inited *)
 InitModule(m) == /\ Step(m, "early", "inited")
